@@ -159,10 +159,14 @@ def scripted(big=False):
     # S1: the regression shapes of C01 on several geometries
     # (G16e: the largest FAT16 volume there is - its last clusters have the numbers 0xFFF0..0xFFF5, just below the bad-cluster mark)
     for gname in ['G16a', 'G32a', 'G16c', 'G32b', 'G16g', 'G32h', 'G16e', 'G16t', 'G32t']:
-        img = image_of(gname, tree='T1', nfree=8)
+        img = image_of(gname, tree='T1', nfree=12)
         upc = img[1]
         upb = len(img[2])
         ops = prologue() + [
+            # an empty write to a file that owns no cluster yet, a lower cluster freed meanwhile, flush while still empty, then data
+            O('open_file', d='d0', name='ZERO.BIN', mode='Create', as_='fz'), O('write', f='fz', n=0), O('delete', d='d0', name='README.TXT'), O('flush', f='fz'),
+            O('write', f='fz', n=2), O('seek_start', f='fz', u=0), O('read', f='fz', n=2), O('flush', f='fz'), O('write', f='fz', n=upc), O('close_file', f='fz'),
+            O('open_file', d='d0', name='ZERO.BIN', mode='ReadOnly', as_='fz2'), O('read', f='fz2', n=upc + 2), O('close_file', f='fz2'),
             O('open_file', d='d0', name='NEW.BIN', mode='Create', as_='f0'),
             O('write', f='f0', n=3 * upc + 1),            # unaligned end, spans >= 3 clusters
             O('seek_start', f='f0', u=upb),               # block boundary in the middle of the file
@@ -191,10 +195,6 @@ def scripted(big=False):
             O('read', f='f3', n=2, api='raii'), O('read', f='f3', n=upc, api='eio'), O('seek_start', f='f3', u=1, api='eio'),
             O('write', f='f3', n=1),                      # read-only handle rejects writes
             O('close_file', f='f3', api='raii'),
-            # an empty write to a file that owns no cluster yet, a lower cluster freed meanwhile, flush while still empty, then data
-            O('open_file', d='d0', name='ZERO.BIN', mode='Create', as_='fz'), O('write', f='fz', n=0), O('delete', d='d0', name='README.TXT'), O('flush', f='fz'),
-            O('write', f='fz', n=2), O('seek_start', f='fz', u=0), O('read', f='fz', n=2), O('flush', f='fz'), O('write', f='fz', n=upc), O('close_file', f='fz'),
-            O('open_file', d='d0', name='ZERO.BIN', mode='ReadOnly', as_='fz2'), O('read', f='fz2', n=upc + 2), O('close_file', f='fz2'),
             # an entry with something in bytes 20..22 (not part of a FAT16 cluster number): extended, truncated, deleted
             O('open_file', d='d0', name='VICTIM.DAT', mode='Append', as_='fv'), O('write', f='fv', n=1), O('close_file', f='fv'),
             O('open_file', d='d0', name='HIWORD.DAT', mode='Append', as_='fh'), O('write', f='fh', n=upc + 1), O('close_file', f='fh'),
@@ -290,7 +290,7 @@ def scripted(big=False):
         ops += [O('open_root', v='v0', as_='r%d' % i) for i in range(D + 1)]
         ops += [O('has_open'), O('close_volume', v='v0')]
         # (the directory table is full: change_dir needs a free slot for the moment both directories are open)
-        ops += [O('change_dir', d='r0', name='TEST'), O('change_dir', d='r0', name='README.TXT'), O('iterate', d='r0')]
+        ops += [O('change_dir', d='r0', name='README.TXT'), O('iterate', d='r0'), O('change_dir', d='r0', name='TEST'), O('iterate', d='r0')]
         ops += [O('open_file', d='r0', name='F%d.TXT' % i, mode='Create', as_='f%d' % i) for i in range(F + 1)]
         ops += [O('iterate', d='r0', reent=True), O('iterate_lfn', d='r0', reent=True, buf=64), O('has_open')]
         ops += [O('mkdir', d='r0', name='MK')]
